@@ -607,7 +607,15 @@ func (c *Controller) HandlePeerBlock(msg *lib.BlockMessage, syncing bool) (*lib.
 			// exit with error
 			return nil, e
 		}
-		if qc.Header.RootHeight < data.LastRootHeightUpdated {
+		minRootHeight := data.LastRootHeightUpdated
+		// the begin-block of this very block records the root height of the previous block's certificate, and the begin-block of
+		// the next one refuses a certificate below it: a certificate accepted here must not be one the chain cannot continue from
+		if qc.Header.Height > 1 {
+			if last, le := c.FSM.LoadCertificateHashesOnly(qc.Header.Height - 1); le == nil && last != nil && last.Header != nil {
+				minRootHeight = max(minRootHeight, last.Header.RootHeight)
+			}
+		}
+		if qc.Header.RootHeight < minRootHeight {
 			// exit with error
 			return nil, lib.ErrInvalidQCRootChainHeight()
 		}
